@@ -391,6 +391,9 @@ func (ex *Exec) call(caller *Frame, fnv Value, args []Value, site ssa.Instructio
 	if f.builtin != nil {
 		return ex.callBuiltin(caller, f.builtin, args, site)
 	}
+	if f.native != nil {
+		return f.native(ex, caller, args)
+	}
 	fn := f.fn
 	name := fn.String()
 	if fn.Origin() != nil {
@@ -676,6 +679,13 @@ func (ex *Exec) prepareCall(fr *Frame, c *ssa.CallCommon) (Value, []Value) {
 		recv := ex.get(fr, c.Value).(IfaceV)
 		if recv.t == nil {
 			ex.goPanicRuntime("method call on nil interface value")
+		}
+		if rt, ok := recv.v.(*ReflT); ok {
+			name := c.Method.Name()
+			for _, a := range c.Args {
+				args = append(args, ex.get(fr, a))
+			}
+			return &FuncV{native: func(ex *Exec, fr *Frame, _ []Value) Value { return ex.reflTypeMethod(rt, name) }}, args
 		}
 		m := ex.lookupMethod(recv.t, c.Method)
 		if m == nil {
